@@ -373,6 +373,9 @@ PROGRAMS = [   # (client 1, client 2) - small programs around start / stop / res
     ([["start"], ["joint"], ["enq", 3], ["joint"]], [["enq", 1], ["enq", 2]], [1, 2, 3], ((3, 0), (2, 0), (3, 1))),
     # a quick task ends while the next one is being submitted; then the idle worker retires and more work arrives
     ([["start"], ["enq", 4], ["enq", 1], ["joint"], ["enq", 2], ["joint"]], [], [1, 2], ((2, 0), (3, 2), (2, 1), (3, 0))),
+    # a single-worker pool started by one client while another submits two tasks: they start in submission order
+    ([["start"], ["joint"]], [["enq", 1], ["enq", 2], ["joint"]], [], ((1, 1), (1, 0))),
+    ([["enq", 3], ["start"], ["joint"]], [["enq", 1], ["enq", 2], ["joint"]], [], ((1, 0), (1, 1))),
     ([["start"], ["enq", 4], ["enq", 3], ["enq", 1], ["joint"], ["enq", 2], ["joint"]], [], [1, 2], ((2, 0), (3, 1))),
     ([["enq", 1], ["start"], ["joint"], ["enq", 3], ["joint"]], [["enq", 2]], [1, 2, 3], ((3, 0), (2, 0))),
     # a task that ends while stop() is waiting for its worker (the gate is opened by the other client), then a restart
@@ -431,7 +434,8 @@ def planned_trace(mx, mn, gated, progs, plan, policy, qcap=0):
                     end = "quiescent"
                     break
             else:
-                t = cur if cur in en else sorted(en, key=lambda x: x.idx if policy == "low" else -x.idx)[0]
+                pol = policy if step <= plan.get(-1, 10 ** 9) else ("high" if policy == "low" else "low")    # (plan[-1]: flip the baseline after that step)
+                t = cur if cur in en else sorted(en, key=lambda x: x.idx if pol == "low" else -x.idx)[0]
         if not tmo and t.idx >= 100:
             idle_fired = 0
         if not tmo and t.idx >= 100 and t.op[0] in ("is_set", "fld_read", "fld_write", "fld_write_locked", "set", "clear", "qput", "acquire", "release", "qsize", "thread_start", "fetch", "return", "qempty", "unfinished_read", "qget_nowait", "thread_join"):
@@ -451,7 +455,7 @@ def planned_trace(mx, mn, gated, progs, plan, policy, qcap=0):
     serving_lower_bound(ev, end)
     h = R.header(seed=0, end=end, ev=ev, blocked=blocked, blockedop=[(R.cop.get(b - 100) or ["none"])[0] for b in blocked],
                  enq=R.enq_order, started=R.start_order, kind="planned", nsteps=S.steps,
-                 plan=sorted(plan.items()), policy=policy, progs=progs, params=[mx, 4, nc])
+                 plan=sorted((k, v) for k, v in plan.items()), policy=policy, progs=progs, params=[mx, 4, nc])
     S.kill_all()
     return h, choices
 
@@ -496,11 +500,32 @@ def explore(part, nparts, maxruns, rnd):
         for plan in plans_f:
             tr, ch2 = planned_trace(mx, mn, gated, progs, plan, policy)
             st1 = max(plan)
+            wide = plan in unprot       # after a switch at an UNPROTECTED access (buggy code only): any second switch,
+            variants = [dict(plan)]     # also with the baseline policy flipped from there on (who runs first among the rest)
+            if wide:
+                pf = dict(plan)
+                pf[-1] = st1
+                trf, chf = planned_trace(mx, mn, gated, progs, pf, policy)
+                key = "|".join("%s:%s" % (e["thr"], e["k"]) for e in trf["ev"])
+                if key not in seen:
+                    seen.add(key)
+                    out.append(trf)
+                for (st2, cur2, oth2, opk2) in chf:
+                    if st2 <= st1:
+                        continue
+                    for o2 in oth2:
+                        p2 = dict(pf)
+                        p2[st2] = o2
+                        tr2, _c = planned_trace(mx, mn, gated, progs, p2, policy)
+                        key = "|".join("%s:%s" % (e["thr"], e["k"]) for e in tr2["ev"])
+                        if key not in seen:
+                            seen.add(key)
+                            out.append(tr2)
             for (st2, cur2, oth2, opk2) in ch2:
-                if st2 <= st1 or not opk2.startswith("fld_"):
+                if st2 <= st1 or not (wide or opk2.startswith("fld_")):
                     continue
                 for o2 in oth2:
-                    if o2 <= 0:
+                    if o2 <= 0 and not wide:
                         continue
                     p2 = dict(plan)
                     p2[st2] = o2
